@@ -43,7 +43,7 @@ Proof.
   set (s2 := {| cs_ := cs_ s1;
                 sb := if p_hasbackrefs prog then repeat None (p_maxparens prog) else sb s1;
                 eb := if p_hasbackrefs prog then repeat None (p_maxparens prog) else eb s1;
-                anchored := false; hist := hist s1 |}).
+                anchored := false; hist := [] |}).
   assert (Ws2 : wfK s2).
   { unfold wfK, wf, s2, s1, set_pstart, set_pcount, with_cs. cbn [cs_ startn endn sb eb anchored pcount].
     rewrite setg0_len by auto. repeat split; auto.
